@@ -284,6 +284,20 @@ def run(ctx):
         for f, bb, w, p in query.field_accessors(prog, TRACKER, fld):
             ctx.ob("C13.G4.tracker-fields-private-to-fuel.rs", "%s|%s" % (f.path, fld),
                    f.path.startswith("minijinja::vm::fuel::"), "", f.where(bb))
+    # G8 (after seed C13-9): the reporting accessors exist for the host.  `State::fuel_levels` (and the tracker's own
+    # getters) are called by nothing inside the engine: a Debug impl, a builtin function or a filter that reads the levels
+    # puts the budget into the output (`debug()` prints the state), so a render at or above the threshold no longer
+    # equals the unlimited one.
+    FL = "minijinja::vm::state::State::fuel_levels"
+    if prog.has_fn(FL):
+        readers = sorted({(c.fn.root or c.fn.path) for c in prog.callers().get(FL, []) if c.fn.crate in ("minijinja", "minijinja_contrib")})
+        # function items passed as values count as well
+        for f_, bb_, how_ in query.fn_refs(prog).get(FL, []):
+            if f_.crate in ("minijinja", "minijinja_contrib"):
+                readers = sorted(set(readers) | {f_.root or f_.path})
+        ctx.ob("C13.G8.fuel-levels-are-read-by-the-host-only", FL, not readers,
+               "the engine itself reads the fuel levels in %s: what it renders can then depend on the budget (the levels differ "
+               "between two budgets and between two points of one render)" % readers, prog.fn(FL).loc)
 
     # G5
     n = 0
